@@ -52,6 +52,8 @@ impl<'c, Q: Queue> Interp<'c, Q> {
             Op::DeserSeq { pairs, carrier, cross } => self.do_deser_seq(pairs, *carrier, *cross),
             // outside the fault runner the wrapped operation simply runs
             Op::WithFault { op, .. } => self.apply(op),
+            Op::Snapshot => self.do_snapshot(),
+            Op::RestoreFrom => self.do_restore_from(),
         }
     }
 
@@ -687,6 +689,35 @@ impl<'c, Q: Queue> Interp<'c, Q> {
         let old = std::mem::replace(&mut self.q, c);
         drop(old);
         self.stats.hit("clone_replace");
+    }
+
+    fn do_snapshot(&mut self) {
+        let c = self.q.clone();
+        if !c.eq_q(&self.q) {
+            self.fail(Group::EqClone, "clone_ne_source", "a clone does not compare equal to its source".into());
+        }
+        self.snapshot = Some((c, self.model.clone(), self.order_on));
+        self.stats.hit("snapshot");
+    }
+
+    /// `queue.clone_from(&snapshot)`: the live queue (any length, any leftovers) is overwritten in place
+    fn do_restore_from(&mut self) {
+        let Some((sq, sm, so)) = self.snapshot.take() else {
+            return self.do_snapshot();
+        };
+        let differs = sm.len() != self.model.len();
+        self.q.clone_from(&sq);
+        if !self.q.eq_q(&sq) || !sq.eq_q(&self.q) {
+            self.fail(Group::EqClone, "clone_from_ne_source", "after clone_from the queue does not compare equal to its source".into());
+        }
+        self.model = sm.clone();
+        self.order_on = so;
+        self.snapshot = Some((sq, sm, so));
+        self.stats.hit("clone_from_used");
+        if differs {
+            self.stats.hit("clone_from_other_length");
+        }
+        self.force_drain = true;
     }
 
     fn do_into_vec(&mut self) {
